@@ -7,6 +7,8 @@ items = []
 for f in sorted(glob.glob(os.path.join(V, "mutants", "*.diff"))):
     items.append((os.path.basename(f)[:-5], os.path.basename(f)[:3], f, "hand-planted"))
 for d in sorted(glob.glob(os.path.join(V, "seeded", "*"))):
+    if not os.path.exists(os.path.join(d, "meta.json")):
+        continue
     m = json.load(open(os.path.join(d, "meta.json")))
     items.append(("seeded/" + os.path.basename(d), m["property"], os.path.join(d, "patch.diff"), "independent sub-agent"))
 sel = sys.argv[1:]
@@ -18,6 +20,10 @@ for name, prop, patch, origin in items:
     subprocess.run(["git", "-C", "/repo", "worktree", "add", "-q", "--detach", wt, "HEAD"], check=True)
     try:
         a = subprocess.run(["git", "apply", patch], cwd=wt, capture_output=True, text=True)
+        if a.returncode:   # later fix commits touched the same lines: fall back to a three-way merge of the patch
+            a = subprocess.run(["git", "apply", "--3way", patch], cwd=wt, capture_output=True, text=True)
+            if a.returncode == 0 and subprocess.run(["git", "diff", "--name-only", "--diff-filter=U"], cwd=wt, capture_output=True, text=True).stdout.strip():
+                a.returncode = 1
         if a.returncode:
             rows.append((name, prop, origin, "patch no longer applies", "", ""))
             continue
